@@ -116,6 +116,38 @@ def long_line_cases():
     return out
 
 
+def basic_malformed_cases():
+    """BASIC programs with broken control structure, each evaluated by a run (USER_PUNCH / USER_PRINT / RATES / CALCULATE_VALUES): the
+    interpreter must report an error, never crash (loop-stack handling of NEXT / WEND / RETURN with other frames open)"""
+    bodies = [
+        " 10 FOR i = 1 TO 3\n 20 x = x + i\n 30 NEXT j",
+        " 10 FOR i = 1 TO 2\n 20 FOR j = 1 TO 2\n 30 NEXT i\n 40 NEXT k",
+        " 10 WHILE x < 2\n 20 x = x + 1\n 30 NEXT i\n 40 WEND",
+        " 10 FOR i = 1 TO 2\n 20 WEND",
+        " 10 GOSUB 100\n 20 END\n 100 NEXT i\n 110 RETURN",
+        " 10 FOR i = 1 TO 2\n 20 RETURN\n 30 NEXT i",
+        " 10 WHILE x < 1\n 20 GOSUB 100\n 30 WEND\n 40 END\n 100 WEND\n 110 RETURN",
+        " 10 NEXT i",
+        " 10 WEND",
+        " 10 RETURN",
+        " 10 FOR i = 1 TO 3\n 20 GOTO 999\n 30 NEXT i",
+        " 10 ON 5 GOTO 20, 30\n 20 FOR i = 1 TO 2\n 30 NEXT i\n 40 NEXT i",
+    ]
+    out = []
+    for k, b in enumerate(bodies):
+        host = k % 4
+        if host == 0:
+            t = "SOLUTION 1\n Na 1\n Cl 1\nSELECTED_OUTPUT 1\n -reset false\nUSER_PUNCH 1\n -headings a\n%s\n 900 PUNCH 1\nEND\n" % b
+        elif host == 1:
+            t = "SOLUTION 1\n Na 1\n Cl 1\nUSER_PRINT\n%s\n 900 PRINT 1\nEND\n" % b
+        elif host == 2:
+            t = "RATES\n r1\n -start\n%s\n 900 SAVE 0\n -end\nSOLUTION 1\n Na 1\n Cl 1\nKINETICS 1\n r1\n -formula NaCl 1\n -m0 1\n -steps 10\nEND\n" % b
+        else:
+            t = "CALCULATE_VALUES\n cv\n -start\n%s\n 900 SAVE 1\n -end\nSOLUTION 1\n Na 1\n Cl 1\nUSER_PRINT\n 10 PRINT CALC_VALUE(\"cv\")\nEND\n" % b
+        out.append({"kind": "RunString", "text": t})
+    return out
+
+
 PROBE = "SOLUTION 1\n Na 1.5\n Cl 1.5\n Ca 0.2\n C(4) 0.4\nSELECTED_OUTPUT 1\n -high_precision true\n -totals Na Ca\nEQUILIBRIUM_PHASES 1\n Calcite 0 0.01\nEND\n"
 
 
@@ -194,7 +226,7 @@ def run(ctx):
             r = random.Random(8000 + sl)
             cases += [gen_case(r) for _ in range(ctx.n(260, 600))]
         ctx.extra["corpus_slices"] = list(slices)
-        cases[:0] = [{"kind": "RunString", "text": t} for t in c07.FAILING] + [{"kind": "RunString", "text": ""}, {"kind": "RunString", "text": "\n\n#only a comment\n"}] + long_line_cases()
+        cases[:0] = [{"kind": "RunString", "text": t} for t in c07.FAILING] + [{"kind": "RunString", "text": ""}, {"kind": "RunString", "text": "\n\n#only a comment\n"}] + long_line_cases() + basic_malformed_cases()
     ref = reference(wexe)
     tmo = 60
     with cf.ThreadPoolExecutor(max_workers=vlib.NCPU) as ex:
